@@ -121,6 +121,15 @@ def sig64(*parts):
     return int.from_bytes(h.digest(), "big")
 
 
+_FAST_FAIL = bool(os.environ.get("VERIF_FAST_FAIL"))     # regression tooling only: a shard stops at its first failure
+
+
+class _FastFail(BaseException):
+    def __init__(self, acc):
+        BaseException.__init__(self)
+        self.acc = acc
+
+
 class Acc(object):
     """What a shard reports back."""
 
@@ -180,6 +189,8 @@ class Acc(object):
             self.fail_buckets[v.bucket] = n + 1
             if n < 3 and len(self.failures) < self.MAX_FAILS:
                 self.failures.append((v.bucket, v.what, case))
+            if _FAST_FAIL:
+                raise _FastFail(self)
 
     def merge(self, o):
         self.evaluations += o.evaluations
@@ -486,6 +497,8 @@ def _worker(args):
         acc = mod.run_shard(desc, seed, tier)
         acc.extra.setdefault("shard_wall_s", {})[_canon(desc)[:80]] = round(time.time() - t0, 1)
         return ("ok", acc)
+    except _FastFail as e:
+        return ("ok", e.acc)
     except BaseException:
         return ("err", traceback.format_exc())
 
@@ -542,7 +555,17 @@ def run_property(pid, tier, seed, jobs=None):
     else:
         ctx = mp.get_context("fork")
         with ctx.Pool(min(jobs, len(work))) as pool:
-            results = pool.map(_worker, work, chunksize=1)
+            if os.environ.get("VERIF_FAST_FAIL"):
+                # regression tooling only (tools/seedregress.sh, tools/selftest.sh): the question there is just "exit 1 or not", so the
+                # run stops at the first shard that reports a failure instead of collecting every root cause
+                results = []
+                for res in pool.imap_unordered(_worker, work, chunksize=1):
+                    results.append(res)
+                    if res[0] == "err" or res[1].failures:
+                        pool.terminate()
+                        break
+            else:
+                results = pool.map(_worker, work, chunksize=1)
     for tag, r in results:
         if tag == "err":
             raise HarnessError("shard failed:\n" + r)
@@ -550,7 +573,7 @@ def run_property(pid, tier, seed, jobs=None):
 
     # 3. shrink + dedup failures
     seen = {}
-    shrink_budget = int(os.environ.get("VERIF_SHRINK_BUDGET", "1500"))
+    shrink_budget = 0 if os.environ.get("VERIF_FAST_FAIL") else int(os.environ.get("VERIF_SHRINK_BUDGET", "1500"))
     for bucket, what, case in total.failures:
         if bucket in seen:
             continue
